@@ -33,6 +33,11 @@ TOP_KINDS = {"proc": ["procedure", "proc", "function", "subroutine"], "type": ["
              "absint": ["interface", "absinterface"], "namelist": ["namelist"], "submodule": ["submodule"], "blockdata": ["block"]}
 ITEM_KINDS = {"variable": ["variable"], "bound": ["bound"], "function": ["function"], "subroutine": ["subroutine"], "type": ["type"], "interface": ["interface"],
               "absint": ["absinterface"], "final": ["final"]}
+# item kinds that can exist within a component of the given kind
+POSSIBLE_ITEMS = {"module": {"variable", "type", "interface", "absinterface", "subroutine", "function", "common"},
+                  "program": {"variable", "type", "interface", "absinterface", "subroutine", "function", "common"},
+                  "proc": {"variable", "type", "interface", "absinterface", "subroutine", "function", "common"},
+                  "type": {"variable", "bound", "final", "constructor"}}
 CONTEXT_ABLE = {"variable", "type", "constructor", "interface", "absinterface", "subroutine", "function", "final", "bound", "modproc", "common"}
 
 
@@ -58,7 +63,7 @@ def build_model(seed):
         return e
 
     sx = seed % 89
-    fa, fb = ent(f"lfa{sx}.f90", "file"), ent(f"lfb{sx}.f90", "file")
+    fa, fb = ent((f"2d_lfa{sx}.f90" if seed % 3 == 1 else f"lfa{sx}.f90"), "file"), ent(f"lfb{sx}.f90", "file")  # a file name may start with a digit
     ma, mb = ent(f"lma{sx}", "module", fa), ent(f"lmb{sx}", "module", fb)
     for m in (ma, mb):
         t = ent("shape", "type", m, "type")
@@ -139,6 +144,9 @@ def lookup(model, ctx, name, q, child, cq):
         return set(), False
     if child is None:
         return {e.eid for e in cands}, False
+    if cq is not None and all(cq not in POSSIBLE_ITEMS.get(e.kind, ()) for e in cands):
+        # "If you specify an option that can not exist within component ... a warning message is issued and the link is not generated"
+        return set(), False
     out = set()
     for e in cands:
         for c, via in kids(e):
@@ -198,6 +206,8 @@ def plan_refs(model, rng, thorough):
         # absent targets and children
         pool += [("shape", "type", "shape", "constructor"), ("shape", "type", "shape", "constructor"), ("shape", "type", "shape", None),
                  (model["ma"].name, None, "shape", "interface"), (model["mb"].name, "module", "shape", "type"), (model["ma"].name, None, "shape", "type")]
+        pool += [(model["ma"].name, None, "count", "bound"), (model["ma"].name, "module", "area", "final"), ("shape", "type", "side", "modproc"),
+                 (model["mb"].name, None, "shape", "bound"), (model["ma"].name, None, "setup", "constructor")]
         pool += [("nosuchthing", None, None, None), ("nosuchthing", "module", None, None), (model["ma"].name, None, "nosuchchild", None),
                  ("area", "type", None, None), ("shape", "proc", None, None), ("nosuchthing", None, "init", None), ("nosuchthing", "module", "init", "subroutine")]
         chosen = pool if thorough and nrefs is None else rng.sample(pool, min(len(pool), nrefs or 14))
@@ -209,7 +219,7 @@ def plan_refs(model, rng, thorough):
         return out
 
     for e in E.values():
-        if e.kind in ("module", "type", "proc", "program", "file") or (e.kind == "variable" and e.parent.kind == "type"):
+        if e.kind in ("module", "type", "proc", "program", "file", "bound") or (e.kind == "variable" and e.parent.kind == "type"):
             e.refs = battery(e, 10 if not thorough else 30)
             sites.append({"kind": "doc:" + e.kind, "ent": e.eid, "refs": e.refs})
     for sk in ("project_file", "summary", "page_top", "page_nested"):
